@@ -225,6 +225,17 @@ Theorem C06_one_to_one_filter : forall (l l' : list (corr R)),
 Proof. exact one_to_one_lemma. Qed.
 Print Assumptions C06_one_to_one_filter.
 
+(* ... in particular for the filter exactly as the model executes it in the correspondence run *)
+Theorem C06_one_to_one_filter_model : forall (l : list (corr R)),
+  let u := one_to_one ROps l in
+  NoDup (map c_src u) /\
+  (forall c, In c l -> exists y, In y u /\ c_src y = c_src c) /\
+  (forall y, In y u -> In y l /\ forall c, In c l -> c_src c = c_src y -> (c_sq y <= c_sq c)%R).
+Proof.
+  intros l. destruct (sort_by_spec l) as [P S]. exact (one_to_one_lemma l _ P S).
+Qed.
+Print Assumptions C06_one_to_one_filter_model.
+
 Example C06_one_to_one_example :
   let a := mkCorr 1 5 (1/4)%R in let b := mkCorr 1 7 (1/2)%R in let c := mkCorr 2 6 0%R in
   Permutation [b; c; a] [a; b; c] /\ sorted_by_src_dist [a; b; c] /\
